@@ -35,6 +35,18 @@ def bounded(check, tier):
         for a in bounds:
             for b in bounds:
                 s.contract_case(F.getitem, dict(self=f, index=slice(a, b)), key=(lens, a, b))
+    from bounded.common import mk_twins
+    for n in (2, 3):
+        for l in (1, 2):
+            for same in (False, True):
+                f = mk_twins(n, l, same)
+                L = len(f.s)
+                bounds = list(range(-L - 1, L + 2)) + [None]
+                for i in range(-L - 1, L + 2):
+                    s.contract_case(F.getitem, dict(self=f, index=i), key=("twins", n, l, same, i))
+                for a in bounds:
+                    for b in bounds:
+                        s.contract_case(F.getitem, dict(self=f, index=slice(a, b)), key=("twins", n, l, same, a, b))
     s.done()
     s = Suite(check, "C06.normalize_slice", "lengths 0..5 x every int / slice bound in [-len-2, len+2] + None",
               bound="length<=5")
